@@ -61,7 +61,8 @@ Record obs := MkObs {
   opc : Z;                      (* pending callback after the op: 7 not started, 0 idle, 1 BestSnapshot,
                                    2 GetBlockHash, 3 BlockFilterMatches, 4 GetBlock, 6 exited *)
   oh : Z;                       (* its height (2,3,4), else 0 *)
-  owl : list outpoint;          (* watch list handed to the filter callback (pc 3) *)
+  owl : list outpoint;          (* watch list handed to the filter callback (pc 3): its scripts, each named by the
+                                   outpoint that represents the script class (Replay.repr) *)
   oacc : bool;                  (* Enqueue accepted (true for other ops) *)
   odel : list (Z * result)      (* results observed through GetUtxoRequest.Result: (request id, value) *)
 }.
